@@ -168,6 +168,19 @@ fn real_main() {
                 }
             };
             let mut emit = |role: &str, kind: &str, theory: Th, assume: &[B], claim: &B, fp_bound: Option<f32>, detail: &str, out: &mut Box<dyn Write>| {
+                if trivial(claim) && kind != "witness" {
+                    // both sides are the SAME hash-consed DAG node: the obligation is an instance of reflexivity; the term
+                    // itself is not printed (it can be megabytes), the solver still sees `t = t` for an opaque t
+                    let sort = if theory == Th::Fp { "(_ FloatingPoint 8 24)" } else { "Real" };
+                    let smt = format!("(set-logic ALL)\n(declare-const t {})\n(assert (not (= t t)))\n", sort);
+                    writeln!(
+                        out,
+                        "{{\"case\":\"{}\",\"property\":\"{}\",\"family\":\"{}\",\"class\":\"{}\",\"path\":{},\"role\":\"{}\",\"kind\":\"{}\",\"theory\":\"{}\",\"trivial\":true,\"no_ties\":{},\"detail\":\"{}\",\"encode_error\":null,\"eq_terms\":null,\"vars\":[],\"smt_real\":null,\"vars_real\":null,\"smt\":\"{}\"}}",
+                        esc(&case.id), case.property, esc(case.family), esc(&case.class), pi, esc(role), kind,
+                        if theory == Th::Fp { "fp" } else { "real" }, case.no_ties, esc(detail), esc(&smt)
+                    ).unwrap();
+                    return;
+                }
                 let mut pr = Printer::new(if theory == Th::Fp { Theory::Fp } else { Theory::Real });
                 let mut body = pr.assert_decisions(&path.pc);
                 body.push_str(&pr.assert_decisions(&path.domain));
